@@ -91,6 +91,24 @@ def rule_api(ctx, rep):
                         src = d[3][1] if d[3][0] == "use" else ["cp", d[3][2]]
                         k = b.const_of(src)
                 decoders.append(k[3].get("static") if k and len(k) > 3 and isinstance(k[3], dict) else "?")
+    if not decoders:
+        # the cascade hoisted into a constant (`const DECODERS: [&Encoding; 2] = [UTF_8, WINDOWS_1252];`): the operand is the constant's
+        # name; its initializer is read from the source of the file (a constant item has no MIR body in the fact base)
+        import os
+        from vlib import facts as FF
+        names = set()
+        for bd in decoding_unit(ctx):
+            for _, _, o in bd.operands():
+                if o[0] == "c" and "encoding_rs::Encoding;" in o[1].replace(" ", "").replace("Encoding;", "Encoding;") and o[2].startswith("ironplcc::source::"):
+                    names.add(o[2].split("::")[-1])
+        try:
+            text = open(os.path.join(FF.WS, b.f["file"]), encoding="utf-8").read()
+        except OSError:
+            text = ""
+        for nm_ in sorted(names):
+            m_ = re.search(r"(?:const|static)\s+%s\s*:\s*\[[^\]]*\]\s*=\s*\[([^\]]*)\]\s*;" % re.escape(nm_), text)
+            if m_:
+                decoders = ["encoding_rs::" + x.strip().split("::")[-1] for x in m_.group(1).split(",") if x.strip()]
     if decoders == ["encoding_rs::UTF_8", "encoding_rs::WINDOWS_1252"]:
         r.ok("cascade|UTF_8 then WINDOWS_1252", where)
     else:
